@@ -130,7 +130,7 @@ def main():
         ],
         "checks": checks,
         "not_applicable": na,
-        "notes": "Exit codes of every command: 0 held / known findings only, 1 VIOLATION, 2 harness error. VERIF_SEED, VERIF_TIER and VERIF_BUDGET_S are honoured. Known findings: /verif/known_findings.txt.",
+        "notes": "Exit codes of every command: 0 held / known findings only, 1 VIOLATION, 2 harness error. The thorough commands of C13-C19 run the CL1024 batch and then a short CL2048 batch of the same scenario (evidence/<ID>-cl2048.json). VERIF_SEED, VERIF_TIER and VERIF_BUDGET_S are honoured. Known findings: /verif/known_findings.txt.",
     }
     json.dump(m, open("/verif/MANIFEST.json", "w"), indent=1)
     print("wrote MANIFEST.json with", len(checks), "checks;", len(na), "not claimed")
